@@ -230,20 +230,20 @@ def embed(simplex, ent_verts, t):
 
 def run(tier):
     ck = Check("C15", tier)
-    ck.rule("E0.instantiate", "every element family x shape it declares (and the six standard trafo evaluators, incl. facet trafos embedded in a higher world dimension) instantiates with all capabilities it states; a front-end error inside kernel/space or kernel/trafo means the evaluator cannot be used at all for that shape", 50)
-    ck.rule("E0.ref-caps", "the capability set a parametric evaluator hands to ParametricEvaluator consists of reference capabilities (ref_value|ref_grad|ref_hess) only and contains ref_value; otherwise ParametricEvaluator::eval_caps (masked with the ref_* bits) is empty and every user that consults eval_caps (ExtVtkWriter static_asserts, EvaluatorBase dispatch) refuses the element", 25)
-    ck.rule("E11.lists-complete", "each of the value / gradient / Hessian lists of an evaluator assigns every slot phi[0..n) (n = get_num_local_dofs()) and every component [j] / [j][k] with j,k < dim exactly over that range and nothing else; a missing entry is uninitialised data handed to the assembly for every cell", 80)
-    ck.rule("E11.grad-is-derivative", "ref_grad[j] (resp. grad[j] of non-parametric evaluators, w.r.t. the image point) of every basis slot equals the partial derivative of the value formula of the same slot w.r.t. coordinate j, as polynomials; a wrong entry falsifies every gradient-based integrand (Laplace, convection) at every cubature point off the zero set of the difference", 900)
-    ck.rule("E11.hess-is-second-derivative", "ref_hess[j][k] (resp. hess[j][k]) of every basis slot equals d^2 value / dx_j dx_k (both orders of every mixed pair, hence symmetric)", 1600)
+    ck.rule("E0.instantiate", "every element family x shape it declares (and the six standard trafo evaluators, incl. facet trafos embedded in a higher world dimension) instantiates with all capabilities it states; a front-end error inside kernel/space or kernel/trafo means the evaluator cannot be used at all for that shape", 52)
+    ck.rule("E0.ref-caps", "the capability set a parametric evaluator hands to ParametricEvaluator consists of reference capabilities (ref_value|ref_grad|ref_hess) only and contains ref_value; otherwise ParametricEvaluator::eval_caps (masked with the ref_* bits) is empty and every user that consults eval_caps (ExtVtkWriter static_asserts, EvaluatorBase dispatch) refuses the element", 29)
+    ck.rule("E11.lists-complete", "each of the value / gradient / Hessian lists of an evaluator assigns every slot phi[0..n) (n = get_num_local_dofs()) and every component [j] / [j][k] with j,k < dim exactly over that range and nothing else; a missing entry is uninitialised data handed to the assembly for every cell", 98)
+    ck.rule("E11.grad-is-derivative", "ref_grad[j] (resp. grad[j] of non-parametric evaluators, w.r.t. the image point) of every basis slot equals the partial derivative of the value formula of the same slot w.r.t. coordinate j, as polynomials; a wrong entry falsifies every gradient-based integrand (Laplace, convection) at every cubature point off the zero set of the difference", 883)
+    ck.rule("E11.hess-is-second-derivative", "ref_hess[j][k] (resp. hess[j][k]) of every basis slot equals d^2 value / dx_j dx_k (both orders of every mixed pair, hence symmetric)", 1650)
     ck.rule("E11.kronecker", "Lagrange-p: the matrix phi_i(x_j) over the principal lattice of order p of FEAT's reference cell (vertices read from Shape::ReferenceCell) is a permutation matrix: each basis function is 1 at exactly one lattice point and 0 at all others, every lattice point is hit (point functionals are dual to the basis)", 15)
     ck.rule("E11.partition-of-unity", "Lagrange-p: the basis functions sum to the constant 1 (constants are reproduced)", 15)
-    ck.rule("E2.dof-mapping", "DofMappingUniform / DofMappingSingleEntity: local DOF k is global index offset(c) + dofs_per_entity(c) * index_set<dim,c>(cell, i) + j with j < dofs_per_entity(c), the (c,i,j) enumerate every entity of every dimension exactly once in (c,i,j)-lexicographic order, offset(c) = sum_{c'<c} dofs(c') * num_entities(c'); any other index arithmetic makes two functionals share an index or leaves gaps on every mesh with more than one cell", 30)
+    ck.rule("E2.dof-mapping", "DofMappingUniform / DofMappingSingleEntity: local DOF k is global index offset(c) + dofs_per_entity(c) * index_set<dim,c>(cell, i) + j with j < dofs_per_entity(c), the (c,i,j) enumerate every entity of every dimension exactly once in (c,i,j)-lexicographic order, offset(c) = sum_{c'<c} dofs(c') * num_entities(c'); any other index arithmetic makes two functionals share an index or leaves gaps on every mesh with more than one cell", 37)
     ck.rule("E13.node-order", "Lagrange-p, canonical orientation: the basis function stored in local slot s is the one dual to the node functional that the DOF mapping assigns to s, i.e. it is 1 at the point of entity (c,i), ordinal j (entity-local node order transcribed from the node_functional.hpp files, embedded through FaceIndexMapping / ReferenceCell); a consistent permutation of two formulas in all three lists passes every derivative test but interpolates onto the wrong functions", 15)
     ck.rule("E13.l3-orientation", "Lagrange-3: every orientation dependent slot index ek[i][j] / qk[i][j] used by the formula lists is defined by prepare() as offset(entity i) + SubIndexMapping<Shape,e,0>::map(i,j) built from (index_set<dim,0>[cell], index_set<dim,e>[cell], index_set<e,0>) in the constructor's parameter roles (shape_verts, shape_cells, cell_verts), for all entities and ordinals; with a missing/foreign orientation source the edge/face DOFs are flipped or not flipped independently of the mesh orientation and the interpolant is discontinuous across re-oriented edges", 4)
-    ck.rule("E11.trafo-jacobian", "Trafo::Standard::Evaluator: calc_jac_mat(i,j) = d map_point_i / d dom_point_j for all i < world_dim, j < shape_dim (all entries assigned)", 40)
+    ck.rule("E11.trafo-jacobian", "Trafo::Standard::Evaluator: calc_jac_mat(i,j) = d map_point_i / d dom_point_j for all i < world_dim, j < shape_dim (all entries assigned)", 44)
     ck.rule("E11.trafo-hessian", "Trafo::Standard::Evaluator: calc_hess_ten(i,j,k) = d^2 map_point_i / d dom_j d dom_k, all entries assigned", 100)
-    ck.rule("E11.trafo-vertex-map", "Trafo::Standard::Evaluator: after prepare(cell), map_point(reference vertex k) is exactly the mesh vertex index_set<dim,0>(cell,k), coordinate by coordinate (coefficient definitions substituted; reference vertices from Shape::ReferenceCell)", 30)
-    ck.rule("E11.chain-rule", "ParametricEvalHelper: value = ref_value; grad_j = sum_k ref_grad_k * jac_inv(k,j); hess_ab = sum_kl ref_hess_kl jac_inv(k,a) jac_inv(l,b) + sum_k ref_grad_k hess_inv(k,a,b), for every slot below max_local_dofs; TrafoEvalHelper::calc_hess_inv(k,a,b) = - sum_c jac_inv(k,c) sum_lm hess_ten(c,l,m) jac_inv(l,a) jac_inv(m,b) (operands and index order)", 12)
+    ck.rule("E11.trafo-vertex-map", "Trafo::Standard::Evaluator: after prepare(cell), map_point(reference vertex k) is exactly the mesh vertex index_set<dim,0>(cell,k), coordinate by coordinate (coefficient definitions substituted; reference vertices from Shape::ReferenceCell)", 83)
+    ck.rule("E11.chain-rule", "ParametricEvalHelper: value = ref_value; grad_j = sum_k ref_grad_k * jac_inv(k,j); hess_ab = sum_kl ref_hess_kl jac_inv(k,a) jac_inv(l,b) + sum_k ref_grad_k hess_inv(k,a,b), for every slot below max_local_dofs; TrafoEvalHelper::calc_hess_inv(k,a,b) = - sum_c jac_inv(k,c) sum_lm hess_ten(c,l,m) jac_inv(l,a) jac_inv(m,b) (operands and index order)", 43)
 
     facts = featlib.extract("tu/c15_spaces.cpp", files=FILES)
     ck.tu(facts)
@@ -273,8 +273,27 @@ def run(tier):
     return ck.finish(expl, extra={"covered": covered, "not_covered": not_covered})
 
 
+class _Prefixed:
+    """the float instantiation re-checks the same instances: same keys (known findings are matched by key),
+    the detail says which instantiation it was"""
+
+    def __init__(self, ck, prefix):
+        self._ck, self._p = ck, prefix
+
+    def ob(self, rule, key, ok, detail="", *a, **kw):
+        return self._ck.ob(rule, key, ok, self._p + detail, *a, **kw)
+
+    def incomplete(self, rule, what):
+        return self._ck.incomplete(rule, self._p + what)
+
+    def note(self, s):
+        return self._ck.note(self._p + s)
+
+
 def analyse(ck, facts, tier, covered, not_covered, primary=True):
-    tag = "" if primary else "float:"
+    tag = ""
+    if not primary:
+        ck = _Prefixed(ck, "[instantiated for float] ")
     refcell = RefCell(facts)
 
     # ---- discover evaluator classes ----------------------------------------------------------------
@@ -333,7 +352,7 @@ def analyse(ck, facts, tier, covered, not_covered, primary=True):
         refmask |= tags.get(nm, REF_BITS[nm])
     seen = set()
     for f in facts.functions:
-        m = re.match(r"^FEAT::Space::ParametricEvaluator<(FEAT::Space::\w+::Evaluator<.*>), FEAT::Trafo::.*, \(FEAT::SpaceTags\)(\d+)>$", f.cls)
+        m = re.match(r"^FEAT::Space::ParametricEvaluator<(FEAT::Space::\w+::Evaluator<.*?FEAT::Shape::\w+<\d>>), FEAT::Trafo::.*, (?:\(FEAT::SpaceTags\))?(\d+)>$", f.cls)
         if not m or f.cls in seen:
             continue
         seen.add(f.cls)
@@ -432,7 +451,8 @@ def analyse(ck, facts, tier, covered, not_covered, primary=True):
             continue
         if not expected:
             ck.note("%s%s: extracted although not in the confirmed table (treated as covered)" % (tag, inst))
-        covered.append("%s%s [%s: %s]" % (tag, inst, kind, ",".join(k.split("_")[-1] for k in lists)))
+        if primary:
+            covered.append("%s [%s: %s]" % (inst, kind, ",".join(k.split("_")[-1] for k in lists)))
         vals = lists[names[0]]
         fv = meths[names[0]][0]
         check_complete(inst, fv, vals, fields[0], n, dim, 0)
@@ -908,6 +928,8 @@ def check_chain_rule(ck, facts, tag):
     for f in facts.functions:
         if f.tk == "pattern" or f.name != "calc_hess_inv" or not f.cls.startswith("FEAT::Trafo::Intern::TrafoEvalHelper"):
             continue
+        if not (f.body or {}).get("s"):
+            continue   # the disabled TrafoEvalHelper<false> stub
         try:
             sx = SymEx([facts])
             sx.run(f, this=None)
